@@ -78,6 +78,15 @@ class VLoop(asyncio.SelectorEventLoop):
                 if n > budget:
                     raise Budget("run_quiescent: %d iterations at t=%r" % (n, self._vt))
 
+    def run_iterations(self, n):
+        """Run at most n loop iterations at the current instant (finer than quiescence)."""
+        with VLoop._Running(self):
+            for _ in range(n):
+                if not (self._ready or self._due()):
+                    break
+                self._run_once()
+                self.iterations += 1
+
     def advance_to(self, t):
         """Move the clock to ``t`` firing every timer on the way in order."""
         while True:
